@@ -792,6 +792,17 @@ pub fn run_behind_preamble(
     (t, l)
 }
 
+/// The caller looks ahead by `n` bytes before handing the reader to the parser (sniffing the
+/// format, checking a length): the parser starts on a reader that may already have seen the end
+/// of the input or the source's failure.
+pub fn run_sniffed(spec: &Spec, data: Rc<Vec<u8>>, feed: &Feed, n: usize, collect: bool) -> (Trace, SrcLog) {
+    let (mut reader, log) = crate::source::build_reader(data, feed, None);
+    let _ = reader.request(n);
+    let t = run_on_init(spec, Init::Reader(reader), log.clone(), collect);
+    let l = log.borrow().clone();
+    (t, l)
+}
+
 /// What a streaming AIGER driver reports in skip mode: the header, the first entry of every
 /// section (the library skips the others in the transition functions) and the comment.
 pub fn skip_filter(items: &[Item]) -> Vec<Item> {
